@@ -270,6 +270,51 @@ def check_solution(h, sol, frames, final, t_model):
     return V
 
 
+def check_solution_views(h, sol, frames, final, t_model, path=None):
+    """The loaded solution looked at through another saved step: `solution.solve_step = j` and
+    `Solution.from_hdf5(path, solve_step=j)`. The times and per-step records it reports are those of
+    the whole recorded run whatever step is being viewed, and the state it shows is frame j's."""
+    V = []
+    frs = sorted([fr for fr in frames if fr.get("completed", True)], key=lambda fr: fr["number"])
+    n = len(frs)
+    if n < 2:
+        return V
+    picks = sorted({0, n // 2, max(0, n - 2)} - {n - 1})
+    sols = [("solve_step", sol)]
+    for j in picks:
+        views = []
+        try:
+            sol.solve_step = j
+            views.append(("solution.solve_step = %d" % j, sol))
+            if path is not None:
+                import tdgl
+
+                views.append(("Solution.from_hdf5(solve_step=%d)" % j, tdgl.Solution.from_hdf5(path, solve_step=j)))
+        except Exception as e:
+            V.append(Violation("view-access", f"looking at saved step {j} of {n} raised {type(e).__name__}: {str(e)[:100]}", view=j))
+            break
+        for label, s_ in views:
+            for v in check_solution(h, s_, frames, final, t_model):
+                v["msg"] = f"[{label}] " + v["msg"]
+                v["where"]["view"] = j
+                V.append(v)
+            try:
+                td = s_.tdgl_data
+                bad = [name for name in ("psi", "mu", "supercurrent", "normal_current", "induced_vector_potential") if name in frs[j]["data"] and not aeq(np.asarray(getattr(td, name)), np.asarray(frs[j]["data"][name]))]
+            except Exception as e:
+                V.append(Violation("view-access", f"[{label}] tdgl_data raised {type(e).__name__}: {str(e)[:100]}", view=j))
+                continue
+            if bad:
+                V.append(Violation("view-content", f"[{label}] the state shown for saved step {j} differs from frame {j} in {bad}", view=j))
+        if V:
+            break
+    try:
+        sol.solve_step = -1
+    except Exception:
+        pass
+    return V
+
+
 def read_frames(path):
     """Re-open the output with plain h5py (never through the run's handles)."""
     import h5py
